@@ -175,7 +175,11 @@ def math_filter(_filter: Callable[..., Any]) -> Callable[..., Any]:
         if is_undefined(val):
             val.poke()
         val = num_arg(val, default=0)
-        return _filter(val, *args, **kwargs)
+        try:
+            return _filter(val, *args, **kwargs)
+        except (ValueError, ArithmeticError) as err:
+            # For example, a NaN or infinite operand, or a number too big for a float.
+            raise LiquidTypeError(str(err) or type(err).__name__, token=None) from err
 
     return wrapper
 
